@@ -17,7 +17,7 @@ RULE = ('RuleBasedStateMachine histories over {push(key,item), read, read-and-mu
         'Non-trivial history = some key received more than k pushes including an item smaller than everything '
         'retained (discarded on arrival) and an item tying with the current minimum; non-trivial search case = '
         '>=2 designs returned or the cap n_designs was reached; distinct by spec hash.')
-BUDGET = {'quick': 3200, 'thorough': 120000}
+BUDGET = {'quick': 3200, 'thorough': 40000}
 FLOOR = {'quick': 300, 'thorough': 5000}
 STEPS = {'quick': 60, 'thorough': 200}
 ASSUMPTIONS = ['ties at the cut-off: any of the equal items may be kept, so multisets are compared on item scores']
